@@ -97,9 +97,18 @@ func NewTypedForwardBoltCursor(cursor *bbolt.Cursor, fieldType FieldType) ast.Se
 	}
 
 	key, _ := result.cursor.First()
-	_, result.key = GetTypeAndValue(key)
+	result.key = typedCursorValue(key)
 
 	return result
+}
+
+// typedCursorValue strips the field type from a list entry key. Unlike GetTypeAndValue it returns an empty,
+// non-nil slice for the empty string, so that an empty element isn't mistaken for the end of the cursor
+func typedCursorValue(key []byte) []byte {
+	if len(key) == 0 {
+		return nil
+	}
+	return key[1:]
 }
 
 type TypedForwardBoltCursor struct {
@@ -109,13 +118,13 @@ type TypedForwardBoltCursor struct {
 
 func (f *TypedForwardBoltCursor) Next() {
 	key, _ := f.cursor.Next()
-	_, f.key = GetTypeAndValue(key)
+	f.key = typedCursorValue(key)
 }
 
 func (f *TypedForwardBoltCursor) Seek(val []byte) {
 	searchVal := PrependFieldType(f.fieldType, val)
 	key, _ := f.cursor.Seek(searchVal)
-	_, f.key = GetTypeAndValue(key)
+	f.key = typedCursorValue(key)
 }
 
 func NewTypedReverseBoltCursor(cursor *bbolt.Cursor, fieldType FieldType) ast.SeekableSetCursor {
@@ -128,7 +137,7 @@ func NewTypedReverseBoltCursor(cursor *bbolt.Cursor, fieldType FieldType) ast.Se
 	}
 
 	key, _ := result.cursor.Last()
-	_, result.key = GetTypeAndValue(key)
+	result.key = typedCursorValue(key)
 
 	return result
 }
@@ -140,13 +149,15 @@ type TypedReverseBoltCursor struct {
 
 func (f *TypedReverseBoltCursor) Next() {
 	key, _ := f.cursor.Prev()
-	_, f.key = GetTypeAndValue(key)
+	f.key = typedCursorValue(key)
 }
 
 func (f *TypedReverseBoltCursor) Seek(val []byte) {
 	searchVal := PrependFieldType(f.fieldType, val)
-	f.key, _ = f.cursor.Seek(searchVal)
-	if !bytes.Equal(searchVal, f.key) {
+	key, _ := f.cursor.Seek(searchVal)
+	if !bytes.Equal(searchVal, key) {
 		f.Next()
+		return
 	}
+	f.key = typedCursorValue(key)
 }
